@@ -101,8 +101,36 @@ func stepSign(loop *ast.ForStmt, v types.Object, info *types.Info) (sign int, va
 
 // R06d: every non-range loop reachable from a render entry is a counted loop whose step has a known sign.
 func ruleR06d(c *Ctx) {
-	c.buildSSA()
 	specs := []entrySpec{{"soyhtml", "(Renderer).Execute"}, {"soyhtml", "(Tofu).Render"}, {"soyhtml", "EvalExpr"}, {"", "ParseGlobals"}}
+	// parse's loops are C05's subject
+	ruleCountedLoops(c, "R06d", specs, func(rel string) bool { return rel != "parse" }, nil, 5, "non-range loops on the render path", "on the render path")
+}
+
+// R05l: the parser's and scanner's loops that read no input (R05a/R05b decide the ones that do) are counted
+// loops whose step has a known sign, or one of the recognised bounded idioms. A loop that rewrites a string
+// until a table lookup misses (expanding an alias through the alias table) has nothing that gets smaller.
+func ruleR05l(c *Ctx) {
+	pf := getParseFacts(c)
+	if pf == nil {
+		return
+	}
+	reads := map[*ast.ForStmt]bool{}
+	for _, ls := range readingLoops(c, pf, newEvaluator(c, lexEOF{pf}), pf.lexerTypes) {
+		reads[ls.loop] = true
+	}
+	if k := pf.itemConsts["itemEOF"]; k != nil {
+		for _, ls := range readingLoops(c, pf, newEvaluator(c, tokEnd{pf, k}), pf.treeTypes) {
+			reads[ls.loop] = true
+		}
+	}
+	specs := []entrySpec{{"parse", "SoyFile"}, {"parse", "Expr"}}
+	ruleCountedLoops(c, "R05l", specs, func(rel string) bool { return rel == "parse" }, func(loop *ast.ForStmt) bool { return reads[loop] }, 3, "loops of the parser that read no input", "in the parser")
+}
+
+// ruleCountedLoops: every non-range loop of the wanted packages that is reachable from the entries (and not
+// skipped) is a counted loop whose step has a known sign, or a recognised bounded idiom.
+func ruleCountedLoops(c *Ctx, rule string, specs []entrySpec, wantRel func(string) bool, skip func(*ast.ForStmt) bool, floor int, floorWhat, where string) {
+	c.buildSSA()
 	entries := c.entryFuncs(specs)
 	if len(entries) != len(specs) {
 		return
@@ -119,8 +147,8 @@ func ruleR06d(c *Ctx) {
 	n := 0
 	for _, f := range fns {
 		rel, fd := c.declOfSSA(f)
-		if fd == nil || rel == "parse" {
-			continue // parse's loops are C05's subject
+		if fd == nil || !wantRel(rel) {
+			continue
 		}
 		info := c.Pkgs[rel].TypesInfo
 		ord := 0
@@ -137,27 +165,30 @@ func ruleR06d(c *Ctx) {
 				return true
 			}
 			ord++
+			if skip != nil && skip(loop) {
+				return true
+			}
 			n++
 			key := fmt.Sprintf("%s#for%d", c.declKey(rel, fd), ord)
 			c.seen(c.declKey(rel, fd))
 			if why, ok := loopExceptions[key]; ok {
-				c.ok("R06d", key, loop.Pos(), "named exception: "+why)
+				c.ok(rule, key, loop.Pos(), "named exception: "+why)
 				return true
 			}
 			// the same loops, recognised by what they do (so that they may be renamed, moved into a helper or
 			// restyled): a work queue over the finite tree, the unwrapping of a pointer chain, a scanner loop
 			if why := boundedLoopIdiom(loop, info); why != "" {
-				c.ok("R06d", key, loop.Pos(), "bounded by construction: "+why)
+				c.ok(rule, key, loop.Pos(), "bounded by construction: "+why)
 				return true
 			}
 			if loop.Cond == nil {
-				c.bad("R06d", key, loop.Pos(), "unconditional loop on the render path: its bound depends on run-time data and cannot be established")
+				c.bad(rule, key, loop.Pos(), "unconditional loop "+where+": its bound depends on run-time data and cannot be established")
 				return true
 			}
 			// condition: v < X, v <= X, v > X, v >= X, X > v ...
 			be, ok := ast.Unparen(loop.Cond).(*ast.BinaryExpr)
 			if !ok {
-				c.bad("R06d", key, loop.Pos(), "loop condition "+exprKey(loop.Cond)+" is not a comparison of a counter with a bound")
+				c.bad(rule, key, loop.Pos(), "loop condition "+exprKey(loop.Cond)+" is not a comparison of a counter with a bound")
 				return true
 			}
 			var v types.Object
@@ -183,13 +214,13 @@ func ruleR06d(c *Ctx) {
 				}
 			}
 			if v == nil || dir == 0 {
-				c.bad("R06d", key, loop.Pos(), "loop condition "+exprKey(loop.Cond)+" does not compare a counter variable with a bound")
+				c.bad(rule, key, loop.Pos(), "loop condition "+exprKey(loop.Cond)+" does not compare a counter variable with a bound")
 				return true
 			}
 			sign, varStep, okStep := stepSign(loop, v, info)
 			switch {
 			case !okStep:
-				c.bad("R06d", key, loop.Pos(), "the counter "+v.Name()+" is assigned in ways other than a fixed-sign step")
+				c.bad(rule, key, loop.Pos(), "the counter "+v.Name()+" is assigned in ways other than a fixed-sign step")
 			case varStep != nil:
 				need := exprKey(varStep)
 				facts := loopFacts[loop]
@@ -198,19 +229,19 @@ func ruleR06d(c *Ctx) {
 					guard = need + " < 0"
 				}
 				if facts[guard] || (dir > 0 && facts["1 <= "+need]) {
-					c.ok("R06d", key, loop.Pos(), "variable step "+need+" with a dominating sign guard ("+guard+")")
+					c.ok(rule, key, loop.Pos(), "variable step "+need+" with a dominating sign guard ("+guard+")")
 				} else {
-					c.bad("R06d", key, loop.Pos(), "the step "+need+" is run-time data and nothing establishes its sign: with a zero or wrong-signed step the loop never ends and memory grows without bound")
+					c.bad(rule, key, loop.Pos(), "the step "+need+" is run-time data and nothing establishes its sign: with a zero or wrong-signed step the loop never ends and memory grows without bound")
 				}
 			case sign == dir:
-				c.ok("R06d", key, loop.Pos(), fmt.Sprintf("counted loop: %s moves by a constant of sign %+d towards its bound", v.Name(), sign))
+				c.ok(rule, key, loop.Pos(), fmt.Sprintf("counted loop: %s moves by a constant of sign %+d towards its bound", v.Name(), sign))
 			default:
-				c.bad("R06d", key, loop.Pos(), "the counter "+v.Name()+" does not move towards the bound in "+exprKey(loop.Cond))
+				c.bad(rule, key, loop.Pos(), "the counter "+v.Name()+" does not move towards the bound in "+exprKey(loop.Cond))
 			}
 			return true
 		})
 	}
-	c.floor("R06d", "non-range loops on the render path", 5, n)
+	c.floor(rule, floorWhat, floor, n)
 }
 
 // guardWalkStmts2 visits statements with comparison/nil facts (guardWalk's facts, statement level).
@@ -564,6 +595,59 @@ func boundedLoopIdiom(loop *ast.ForStmt, info *types.Info) string {
 		})
 		if elem {
 			return "unwraps the pointer/interface chain of the caller's value, which is finite (and acyclic for JSON-like data)"
+		}
+	}
+	// for X != nil { X = X(arg) }: the driver of a state machine (the scanner's; R05f decides that it reaches nil)
+	if be, ok := ast.Unparen(loop.Cond).(*ast.BinaryExpr); ok && be.Op == token.NEQ && exprKey(be.Y) == "nil" && len(loop.Body.List) == 1 {
+		if tv, ok := info.Types[be.X]; ok {
+			if _, isFunc := tv.Type.Underlying().(*types.Signature); isFunc {
+				if as, ok := loop.Body.List[0].(*ast.AssignStmt); ok && len(as.Lhs) == 1 && len(as.Rhs) == 1 && exprKey(as.Lhs[0]) == exprKey(be.X) {
+					if call, ok := ast.Unparen(as.Rhs[0]).(*ast.CallExpr); ok && exprKey(call.Fun) == exprKey(be.X) {
+						return "driver of a state machine: each iteration runs the current state function and ends when one returns nil (R05f: at end of input the states reach nil)"
+					}
+				}
+			}
+		}
+	}
+	// for len(X) > 0 { ...; X = X[e:] }: consumes the text it loops over
+	if be, ok := ast.Unparen(loop.Cond).(*ast.BinaryExpr); ok && be.Op == token.GTR && exprKey(be.Y) == "0" && len(loop.Body.List) > 0 {
+		if call, ok := ast.Unparen(be.X).(*ast.CallExpr); ok && len(call.Args) == 1 {
+			if id, ok := call.Fun.(*ast.Ident); ok && id.Name == "len" {
+				q := exprKey(call.Args[0])
+				if as, ok := loop.Body.List[len(loop.Body.List)-1].(*ast.AssignStmt); ok && len(as.Lhs) == 1 && len(as.Rhs) == 1 && exprKey(as.Lhs[0]) == q {
+					if se, ok := ast.Unparen(as.Rhs[0]).(*ast.SliceExpr); ok && exprKey(se.X) == q && se.Low != nil && se.High == nil {
+						return "consumes the text it loops over: every iteration ends by cutting " + q + " to " + exprKey(as.Rhs[0]) + " (that the cut is not empty is not decided here)"
+					}
+				}
+			}
+		}
+	}
+	// for i < len(s) { r, size := utf8.DecodeRune..(s[i:]); i += size }: advances by the width of a character
+	if be, ok := ast.Unparen(loop.Cond).(*ast.BinaryExpr); ok && be.Op == token.LSS && loop.Post == nil {
+		iv := exprKey(be.X)
+		var width string
+		ast.Inspect(loop.Body, func(x ast.Node) bool {
+			if as, ok := x.(*ast.AssignStmt); ok && len(as.Rhs) == 1 && len(as.Lhs) == 2 {
+				if call, ok := ast.Unparen(as.Rhs[0]).(*ast.CallExpr); ok {
+					if cal := calleeFunc(call, info); cal != nil && cal.Pkg() != nil && cal.Pkg().Path() == "unicode/utf8" && strings.HasPrefix(cal.Name(), "DecodeRune") && len(call.Args) == 1 {
+						if se, ok := ast.Unparen(call.Args[0]).(*ast.SliceExpr); ok && se.Low != nil && exprKey(se.Low) == iv {
+							width = exprKey(as.Lhs[1])
+						}
+					}
+				}
+			}
+			return true
+		})
+		if width != "" {
+			steps := false
+			for _, st := range loop.Body.List {
+				if as, ok := st.(*ast.AssignStmt); ok && as.Tok == token.ADD_ASSIGN && len(as.Lhs) == 1 && exprKey(as.Lhs[0]) == iv && exprKey(as.Rhs[0]) == width {
+					steps = true
+				}
+			}
+			if steps {
+				return "advances " + iv + " by the width of the character decoded at " + iv + " on every iteration (at least 1 while " + iv + " is inside the text)"
+			}
 		}
 	}
 	// for scanner.Scan() { ... }
